@@ -164,8 +164,10 @@ func c03Decode(hp *http2.HPACK, b []byte) ([]refhpack.Field, error) {
 	defer http2.ReleaseHeaderField(hf)
 	fields := 0
 	for len(b) > 0 {
-		hf.Reset()
+		// no Reset between fields: the library's own loops (and any caller of Next) decode a whole block into one
+		// HeaderField, so whatever a step leaves behind in it is part of what the next one yields
 		hf.SetKey("\x00unset")
+		hf.SetValue("")
 		before := len(b)
 		rest, err := hp.VerifNextField(hf, true, fields, b)
 		if err != nil {
@@ -272,8 +274,23 @@ func c03Run(c c03Case) Outcome {
 		classes = append(classes, "reject-lane")
 		switch {
 		case errors.Is(rerr, refhpack.ErrInteger):
-			// beyond implementation limits: either outcome is allowed
-			return Outcome{NonTrivial: true, Classes: append(classes, "impl-limit")}
+			// An integer beyond the reference's limits. If only its *encoding* is long (zero-padded, value below
+			// 2^62) an implementation may refuse it or read it, and reading it means reading that value. If its
+			// *value* is out of range no table index, string length or table size can be meant: refusing is the
+			// only correct outcome, and an implementation whose arithmetic wraps decodes it to something else.
+			ref2 := &refhpack.Decoder{T: enc.T.Clone(), Limit: allowed, MustShrinkTo: -1}
+			refhpack.LongInts = true
+			want2, rerr2 := ref2.DecodeBlock(raw)
+			refhpack.LongInts = false
+			switch {
+			case gerr != nil:
+				return Outcome{NonTrivial: true, Classes: append(classes, "impl-limit-refused")}
+			case rerr2 != nil:
+				return fail("accept-invalid", "block %x carries an integer that is out of range (%v) but decoded to %s", raw, rerr2, fmtFields(got))
+			case !fieldsEqual(got, want2):
+				return fail("wrong-fields", "block %x (over-long integer encoding): decoded %s, the value it spells gives %s", raw, fmtFields(got), fmtFields(want2))
+			}
+			return Outcome{NonTrivial: true, Classes: append(classes, "impl-limit-read")}
 		case rerr != nil && gerr == nil:
 			return fail("accept-invalid", "block %x is invalid (%v) but decoded to %s", raw, rerr, fmtFields(got))
 		case rerr == nil && gerr != nil:
@@ -340,6 +357,21 @@ func c03GenBlock(t *rapid.T, ops []c03Op) string {
 			b = []byte{0x40}
 		}
 	case 6: // over-long varint
+		if rapid.Bool().Draw(t, "wrap") {
+			// a small, meaningful number plus a multiple of 2^64 (or 2^63): ten continuation octets whose last
+			// one carries bits that a 64-bit accumulator drops; with wrapping arithmetic it reads as the small number
+			first, prefix := rapid.SampledFrom([][2]int{{0x80, 7}, {0x40, 6}, {0x00, 4}, {0x10, 4}}).Draw(t, "wk"), 0
+			prefix = first[1]
+			small := uint64(rapid.IntRange(1<<prefix-1, 1<<prefix+60).Draw(t, "small")) // needs continuation octets
+			b = refhpack.AppendInt(nil, uint8(prefix), byte(first[0]), small, 9)
+			// AppendInt(..., pad 9) ends in a zero octet that is the 10th group: give it high bits
+			b[len(b)-1] = byte(rapid.SampledFrom([]int{2, 4, 6, 64, 126}).Draw(t, "hi"))
+			if first[0] != 0x80 {
+				b = refhpack.AppendString(b, "v", false, 0)
+			}
+			b = append(b, 0x82)
+			break
+		}
 		b = []byte{rapid.SampledFrom([]byte{0xff, 0x7f, 0x0f, 0x1f, 0x3f}).Draw(t, "p")}
 		k := rapid.IntRange(1, 12).Draw(t, "k")
 		for i := 0; i < k; i++ {
@@ -366,7 +398,7 @@ func c03GenBlock(t *rapid.T, ops []c03Op) string {
 func TestC03(t *testing.T) {
 	s := newSuite(t, "C03",
 		"acceptance: sequences of 1..8 header blocks built by an in-harness RFC 7541 encoder with a per-field representation choice (indexed / literal with, without, never indexing; indexed or literal name; Huffman or raw per string; non-minimal integers), table-driven repeats, size updates and changes of the advertised limit, decoded through the block-level entry point the server uses; oracle = field list and dynamic table equal to the encoder model (x/net decoder guards the model). rejection: the same histories followed by a mutated or arbitrary block, judged against a strict reference decoder. Non-trivial = a block using >=2 representation kinds and a dynamic-table reference, or any rejection-lane block; distinct by case hash.",
-		"field names are non-empty tokens (HTTP forbids empty names)", "integers longer than 9 continuation octets may be rejected or accepted (RFC 7541 5.1)")
+		"field names are non-empty tokens (HTTP forbids empty names)", "an over-long (zero-padded) integer encoding may be refused or read as the value it spells; an integer whose value is out of range must be refused (RFC 7541 5.1)")
 	defer s.finish()
 
 	runLane(s, Lane[c03Case]{Name: "accept", Quick: 12000, Thor: 1600000,
